@@ -50,21 +50,40 @@ section
 variable (sr : Val → Str) (sch : Schema) (P : Params) (fnRec : String → List Val → List (Str × Val) → R Val)
   (cm : Val → String → List Val → List (Str × Val) → R Val) (cv : Val → List Val → R Val)
 
-/-- statements 0–4: the clause is normalised, `sourceClass`, `clause`, `ops` are stored -/
-theorem init_s0_4 (cl : Option Query.Expr) (ct : Val) (d : List (Str × Val)) (k : Env → Res) :
-    ∃ env, InitSt env clsV (clauseV sr sch (cl.getD .tt)) ct d ∧
-    (Block.exec (qIface sch P fnRec cm cv) (Env.ofArgs [.obj "SelectResults" [], clsV, optClauseV sr sch cl, ct, .dict d])
+/-- the clause argument `cin` of `__init__` and the clause `e` it stands for: `None` (all rows), an expression object,
+    or the TEXT of a keyword clause (what `selectBy` passes; any text other than the word `all`) -/
+inductive ClauseIn : Val → Query.Expr → Prop where
+  | none : ClauseIn .none .tt
+  | expr (e : Query.Expr) : ClauseIn (clauseV sr sch e) e
+  | text (conds : List Query.Cond) (h : condsText sr sch conds ≠ ['a', 'l', 'l']) :
+      ClauseIn (.str (condsText sr sch conds)) (.kw conds)
+
+theorem ClauseIn.ofOpt (cl : Option Query.Expr) : ClauseIn sr sch (optClauseV sr sch cl) (cl.getD .tt) := by
+  cases cl with
+  | none => exact .none
+  | some e => exact .expr e
+
+/-- statements 0–4: the clause is normalised (a text is grouped: `SQLConstant('(%s)' % text)`), `sourceClass`, `clause`,
+    `ops` are stored -/
+theorem init_s0_4 (cin : Val) (e : Query.Expr) (hin : ClauseIn sr sch cin e) (ct : Val) (d : List (Str × Val)) (k : Env → Res) :
+    ∃ env, InitSt env clsV (clauseV sr sch e) ct d ∧
+    (Block.exec (qIface sch P fnRec cm cv) (Env.ofArgs [.obj "SelectResults" [], clsV, cin, ct, .dict d])
       (.cons srInit_s0 (.cons srInit_s1 (.cons srInit_s2 (.cons srInit_s3 (.cons srInit_s4 .nil)))))).seq k = k env := by
   unfold srInit_s0 srInit_s1 srInit_s2 srInit_s3 srInit_s4
-  cases cl with
+  cases hin with
   | none =>
-    pyqw [optClauseV, setAttrOf, fset]
+    pyqw [setAttrOf, fset]
     refine ⟨_, ?_, rfl⟩
     constructor <;> simp [clauseV]
-  | some e =>
-    pyqw [optClauseV, setAttrOf, fset]
+  | expr e =>
+    pyqw [setAttrOf, fset]
     refine ⟨_, ?_, rfl⟩
     constructor <;> simp
+  | text conds h =>
+    have h' : (condsText sr sch conds == ['a', 'l', 'l']) = false := by simpa using h
+    pyqw [setAttrOf, fset, h', constV]
+    refine ⟨_, ?_, rfl⟩
+    constructor <;> simp [clauseV, constV]
 
 /-- `ops` after the default order was filled in -/
 def opsDefault (d : List (Str × Val)) : List (Str × Val) :=
@@ -204,25 +223,27 @@ theorem init_s13_14 (env : Env) (cl ct : Val) (ts : List (String × Val)) (d : L
 def initOps (d : List (Str × Val)) (o : Query.OrderBy) : List (Str × Val) :=
   opsConn (aset (opsDefault sch d) kDbOrderBy (DbOrder.toVal sch (Query.mungeAll sch o)))
 
-/-- **`SelectResults.__init__`** (window keywords left out: C10; `clauseTables` empty) -/
-theorem init_translated (hm : MungeIs sch P fnRec cm cv) (cl : Option Query.Expr) (ct : Val) (hct : truthy ct = false)
+/-- **`SelectResults.__init__`** (window keywords left out: C10; `clauseTables` empty), for every kind of clause
+    argument: `None`, an expression, a keyword-clause text -/
+theorem init_translated_gen (hm : MungeIs sch P fnRec cm cv) (cin : Val) (e : Query.Expr) (hin : ClauseIn sr sch cin e)
+    (ct : Val) (hct : truthy ct = false)
     (d : List (Str × Val)) (o : Query.OrderBy) (conn dbn : Val)
     (ho : aget kOrderBy (opsDefault sch d) = some (OrderBy.toVal sch o))
     (hl : truthy ((aget kLimit (initOps sch d o)).getD .none) = false)
-    (hgc : cm (.obj "SelectResults" [("sourceClass", clsV), ("clause", clauseV sr sch (cl.getD .tt)),
+    (hgc : cm (.obj "SelectResults" [("sourceClass", clsV), ("clause", clauseV sr sch e),
       ("ops", .dict (initOps sch d o))]) "_getConnection" [] [] = .ok conn)
     (hdb : attrOf (qIface sch P fnRec cm cv) conn "dbName" = .ok dbn) :
-    initX (qIface sch P fnRec cm cv) clsV (optClauseV sr sch cl) ct d =
-      (.ret .none, some (srObj clsV (clauseV sr sch (cl.getD .tt)) (.dict (initOps sch d o)) ct
-        (.list (P.listOf (.obj "set" (P.tablesUsed (clauseV sr sch (cl.getD .tt)) dbn)) ++ [.str sch.table])))) := by
+    initX (qIface sch P fnRec cm cv) clsV cin ct d =
+      (.ret .none, some (srObj clsV (clauseV sr sch e) (.dict (initOps sch d o)) ct
+        (.list (P.listOf (.obj "set" (P.tablesUsed (clauseV sr sch e) dbn)) ++ [.str sch.table])))) := by
   unfold initX runSelf srInit
-  obtain ⟨e4, i4, h04⟩ := init_s0_4 sr sch P fnRec cm cv cl ct d (fun env' => Block.exec (qIface sch P fnRec cm cv) env'
+  obtain ⟨e4, i4, h04⟩ := init_s0_4 sr sch P fnRec cm cv cin e hin ct d (fun env' => Block.exec (qIface sch P fnRec cm cv) env'
     (.cons srInit_s5 (.cons srInit_s6 (.cons srInit_s7 (.cons srInit_s8 (.cons srInit_s9 (.cons srInit_s10
       (.cons srInit_s11 (.cons srInit_s12 (.cons srInit_s13 (.cons srInit_s14 .nil)))))))))))
   obtain ⟨e5, x5, i5⟩ := init_s5 sch P fnRec cm cv e4 _ ct d i4
   obtain ⟨e6, x6, i6, v6⟩ := init_s6 sch P fnRec cm cv e5 _ ct _ _ i5 ho
   have x7 := init_s7 sch P fnRec cm cv hm e6 _ ct _ i6 o v6
-  have i7 : InitSt (e6.put 5 (DbOrder.toVal sch (Query.mungeAll sch o))) clsV (clauseV sr sch (cl.getD .tt)) ct
+  have i7 : InitSt (e6.put 5 (DbOrder.toVal sch (Query.mungeAll sch o))) clsV (clauseV sr sch e) ct
       (opsDefault sch d) := by
     obtain ⟨h0, h1, h2, h3, h4⟩ := i6
     constructor <;> simp [*]
@@ -230,10 +251,10 @@ theorem init_translated (hm : MungeIs sch P fnRec cm cv) (cl : Option Query.Expr
   obtain ⟨e9, x9, i9⟩ := init_s9 sch P fnRec cm cv e8 _ ct _ i8
   have x10 := init_s10 sch P fnRec cm cv e9 _ ct _ i9 hl
   have x11 := init_s11 sch P fnRec cm cv e9 _ ct conn dbn _ i9 hgc hdb
-  have x12 := init_s12 sch P fnRec cm cv (e9.put 6 (.obj "set" (P.tablesUsed (clauseV sr sch (cl.getD .tt)) dbn))) ct
+  have x12 := init_s12 sch P fnRec cm cv (e9.put 6 (.obj "set" (P.tablesUsed (clauseV sr sch e) dbn))) ct
     (by simp [i9.h3]) hct
-  have i12 : InitSt (e9.put 6 (.obj "set" (P.tablesUsed (clauseV sr sch (cl.getD .tt)) dbn))) clsV
-      (clauseV sr sch (cl.getD .tt)) ct (initOps sch d o) := by
+  have i12 : InitSt (e9.put 6 (.obj "set" (P.tablesUsed (clauseV sr sch e) dbn))) clsV
+      (clauseV sr sch e) ct (initOps sch d o) := by
     obtain ⟨h0, h1, h2, h3, h4⟩ := i9
     constructor <;> simp [*, initOps]
   have x13 := init_s13_14 sch P fnRec cm cv _ _ ct _ _ i12 rfl
@@ -246,5 +267,18 @@ theorem init_translated (hm : MungeIs sch P fnRec cm cv) (cl : Option Query.Expr
   rw [x5, Res.seq_norm, x6, Res.seq_norm, x7, Res.seq_norm, x8, Res.seq_norm, x9, Res.seq_norm, x10, Res.seq_norm,
     x11, Res.seq_norm, x12, Res.seq_norm]
   exact x13
+
+/-- the same with the clause given as `None` / an expression object -/
+theorem init_translated (hm : MungeIs sch P fnRec cm cv) (cl : Option Query.Expr) (ct : Val) (hct : truthy ct = false)
+    (d : List (Str × Val)) (o : Query.OrderBy) (conn dbn : Val)
+    (ho : aget kOrderBy (opsDefault sch d) = some (OrderBy.toVal sch o))
+    (hl : truthy ((aget kLimit (initOps sch d o)).getD .none) = false)
+    (hgc : cm (.obj "SelectResults" [("sourceClass", clsV), ("clause", clauseV sr sch (cl.getD .tt)),
+      ("ops", .dict (initOps sch d o))]) "_getConnection" [] [] = .ok conn)
+    (hdb : attrOf (qIface sch P fnRec cm cv) conn "dbName" = .ok dbn) :
+    initX (qIface sch P fnRec cm cv) clsV (optClauseV sr sch cl) ct d =
+      (.ret .none, some (srObj clsV (clauseV sr sch (cl.getD .tt)) (.dict (initOps sch d o)) ct
+        (.list (P.listOf (.obj "set" (P.tablesUsed (clauseV sr sch (cl.getD .tt)) dbn)) ++ [.str sch.table])))) :=
+  init_translated_gen sr sch P fnRec cm cv hm _ _ (ClauseIn.ofOpt sr sch cl) ct hct d o conn dbn ho hl hgc hdb
 end
 end SqlObjVerif.QueryX
